@@ -106,7 +106,7 @@ impl Prop for P05 {
         };
         let big = idx % 23 == 7; // exercise the 4096-byte buffer edge
         let len = if big {
-            4096 + rng.range(-3, 600) as usize
+            (4096 + rng.range(-3, 600)) as usize
         } else if tier == "thorough" {
             rng.below(400)
         } else {
